@@ -63,6 +63,27 @@ Definition out_size (o : txout) : N := lenN (out_cbor_map o).
 (* ================================================================== MODEL *)
 Record cfg := mkCfg { cpb : Z; max_val_size : Z }.   (* coins_per_utxo_byte, max_val_size *)
 
+(* The protocol parameters as a chain context reports them. Of the whole ProtocolParameters record the change
+   slice and the min-ADA utility read exactly two fields, coins_per_utxo_byte and max_val_size (`cfg`). The fields
+   that governed the minimum ADA in EARLIER eras are carried along so that cases can vary them the way real
+   backends do (Shelley `min_utxo`: 1 ADA on old snapshots, 4310 = the per-byte price or 34482 since Babbage on
+   Blockfrost, absent/None on Ogmios v6; Alonzo `coins_per_utxo_word`: 8 * per-byte price, 34482, 0 or absent):
+   the model ignores them (cfg_of), the correspondence run checks on every case that the code does too, and the
+   oracle checks the outputs against the Babbage/Conway rule, which knows coins_per_utxo_byte only. *)
+Record pparams := mkPP {
+  pp_cpb : Z;                    (* coins_per_utxo_byte *)
+  pp_mvs : Z;                    (* max_val_size *)
+  pp_min_utxo : option Z;        (* legacy, Shelley..Mary *)
+  pp_cpw : option Z              (* legacy coins_per_utxo_word, Alonzo *)
+}.
+Definition cfg_of (p : pparams) : cfg := mkCfg (pp_cpb p) (pp_mvs p).
+
+(* the ledger's acceptance test of an output (Babbage/Conway UTxO rule): coin >= cpb * (160 + |map form|) *)
+Definition ledger_accepts (cpb : Z) (o : txout) : bool := min_ada cpb (out_size o) <=? coin (o_val o).
+(* the output with its ADA replaced: what a caller of the min-ADA utility builds from the answer *)
+Definition with_coin (o : txout) (c : Z) : txout :=
+  mkOut (o_addr o) (mkValue c (massets (o_val o))) (o_datum o) (o_script o).
+
 Inductive c_err :=
 | EInsufficient        (* InsufficientUTxOBalanceException *)
 | EInvalidTx           (* InvalidTransactionException *)
@@ -77,6 +98,9 @@ Arguments Err {A} e.
 Definition subst_coin (v : value) : value := if coin v =? 0 then mkValue 1000000 (massets v) else v.
 Definition min_lovelace (c : cfg) (o : txout) : Z :=
   (160 + Z.of_N (out_size (mkOut (o_addr o) (subst_coin (o_val o)) (o_datum o) (o_script o)))) * cpb c.
+
+(* the utility under a full parameter record: context.protocol_param.coins_per_utxo_byte is the only field read *)
+Definition min_lovelace_pp (p : pparams) (o : txout) : Z := min_lovelace (cfg_of p) o.
 
 Definition vsize (v : value) : Z := Z.of_N (lenN (value_cbor v)).
 
